@@ -180,6 +180,7 @@ type run struct {
 	steps         int
 	depth         int
 	incomplete    string
+	inSubst       map[string]int // substituted functions whose replacement is executing (replacement may call the original)
 	reached       []string
 	observed      []obs
 	tags          map[string]string
